@@ -70,3 +70,30 @@ Theorem C08_check_as_in_source_is_the_model : forall st l sopt x s,
   pytree_check_src st pytree_check_rolls_back l sopt x s = leafmatch st (LPyTree l sopt) x s.
 Proof. exact (fun st l sopt x s => pytree_check_src_true st l sopt x s). Qed.
 Print Assumptions C08_check_as_in_source_is_the_model.
+
+(* "array-annotated leaves share axis bindings with one another and with the rest of the context": inside a context,
+   PyTree[Dtype[Array, dims]] decides like ONE walk over its array leaves -- it accepts exactly when the assignments
+   consistent with the context can be narrowed to ones satisfying EVERY leaf (and narrows to exactly those); a rejected
+   tree means no assignment consistent with the context satisfies all leaves, and leaves the store as it was *)
+From JT Require Import proofs.CheckFacts proofs.IdemFacts.
+Theorem C08_array_leaves_share_one_assignment : forall st a, wf_annot a -> forall x m t r vd s',
+  leafmatch st (LPyTree (LArr a) None) x (mkps ((m, t) :: r) None false) = (vd, s') ->
+  (vd = Acc -> exists m', s' = mkps ((m', t) :: r) None false /\ margs m' = margs m /\
+                          forall e, gamma m' e <-> gamma m e /\ Forall (full_sat None st (margs m) e) (uses a (array_leaves st a x))) /\
+  (vd = Rej -> s' = mkps ((m, t) :: r) None false /\
+               forall e, gamma m e -> ~ Forall (full_sat None st (margs m) e) (uses a (array_leaves st a x))).
+Proof. exact pytree_arrays_decide_like_one_walk. Qed.
+Print Assumptions C08_array_leaves_share_one_assignment.
+
+(* the leaves meant above are the ones the flatten phase yields whatever the bindings are *)
+Theorem C08_flatten_phase_independent_of_bindings : forall st a, wf_annot a -> forall x st1 p1 st2 p2, exists fl,
+  flatten_with (leafmatch st (LArr a)) x (mkps st1 p1 true) = (fl, mkps st1 p1 true, None) /\
+  flatten_with (leafmatch st (LArr a)) x (mkps st2 p2 true) = (fl, mkps st2 p2 true, None).
+Proof. exact flatten_flat. Qed.
+Print Assumptions C08_flatten_phase_independent_of_bindings.
+
+Example C08_array_leaves_nonvacuous :
+  let arr sh := Leaf (PArr (mkvalue true true "float32" sh)) in
+  array_leaves [] (AC None "a b") (Node KTuple [arr [2; 3]%Z; Node KNone []; Node (KDict ["k"]) [arr [2; 4]%Z]]) = [arr [2; 3]%Z; arr [2; 4]%Z] /\
+  fst (leafmatch [] (LPyTree (LArr (AC None "a b")) None) (Node KTuple [arr [2; 3]%Z; Node (KDict ["k"]) [arr [2; 4]%Z]]) (mkps [(empty_memo, [])] None false)) = Rej.
+Proof. vm_compute. split; reflexivity. Qed.
